@@ -104,9 +104,41 @@ def ensure_lock():
         shutil.copy(os.path.join(REPO, "Cargo.lock"), lock)
 
 
+WORKSPACE_HEAD = """[workspace]
+resolver = "2"
+members = [%s]
+
+[profile.dev]
+debug = 0
+opt-level = 0
+overflow-checks = true
+debug-assertions = true
+
+[profile.dev.package."*"]
+opt-level = 1
+debug = 0
+"""
+
+
+def gen_workspace():
+    """harness/Cargo.toml lists every h_* directory that has a Cargo.toml (generated: adding a package needs no shared edit)"""
+    ms = sorted(d for d in os.listdir(HARNESS)
+                if d.startswith("h_") and os.path.exists(os.path.join(HARNESS, d, "Cargo.toml")))
+    txt = WORKSPACE_HEAD % ", ".join('"%s"' % m for m in ms)
+    p = os.path.join(HARNESS, "Cargo.toml")
+    try:
+        old = open(p).read()
+    except OSError:
+        old = None
+    if old != txt:
+        with open(p, "w") as fh:
+            fh.write(txt)
+
+
 def cargo_build(pkg, features=None, rustflags=None, timeout=2400, target_sub=None, env=None):
     """Build one harness package against /repo's working tree; returns the directory holding the binary."""
     ensure_lock()
+    gen_workspace()
     cmd = ["cargo", "build", "--offline", "-p", pkg]
     if features:
         cmd += ["--features", ",".join(features)]
@@ -120,6 +152,13 @@ def cargo_build(pkg, features=None, rustflags=None, timeout=2400, target_sub=Non
     if env:
         e.update(env)
     rc, out, err = sh(cmd, cwd=HARNESS, timeout=timeout, env=e)
+    tries = 0
+    while rc != 0 and "failed to load manifest for workspace member" in err and tries < 4:
+        # another package of the workspace is mid-edit: regenerate the member list and retry
+        time.sleep(3)
+        gen_workspace()
+        tries += 1
+        rc, out, err = sh(cmd, cwd=HARNESS, timeout=timeout, env=e)
     if rc != 0:
         raise HarnessBuildFailed(pkg, (out + err)[-6000:])
     return os.path.join(tdir, "debug")
